@@ -145,11 +145,19 @@ func Name() *rapid.Generator[pkix.Name] {
 	})
 }
 
-func makeCert(key int, subject pkix.Name, serial *big.Int) (*x509.Certificate, error) {
+// issuer describes who issues a certificate: nil = self-signed.
+type issuer struct {
+	Key        int    // pool key that signs the certificate
+	RawSubject []byte // the issuer's name exactly as it must appear in the issued certificate (nil: encode Name)
+	Name       pkix.Name
+}
+
+func makeCertFull(key int, subject pkix.Name, rawSubject []byte, serial *big.Int, iss *issuer) (*x509.Certificate, error) {
 	now := time.Now().UTC().Truncate(time.Hour)
 	tpl := &x509.Certificate{
 		SerialNumber:       serial,
 		Subject:            subject,
+		RawSubject:         rawSubject,
 		NotBefore:          now.Add(-48 * time.Hour),
 		NotAfter:           now.Add(10 * 365 * 24 * time.Hour),
 		KeyUsage:           x509.KeyUsageDigitalSignature,
@@ -157,18 +165,33 @@ func makeCert(key int, subject pkix.Name, serial *big.Int) (*x509.Certificate, e
 		SignatureAlgorithm: x509.SHA256WithRSA,
 	}
 	k := Keys()[key]
-	der, err := x509.CreateCertificate(rand.Reader, tpl, tpl, &k.PublicKey, k)
+	parent, signKey := tpl, k
+	if iss != nil {
+		parent = &x509.Certificate{Subject: iss.Name, RawSubject: iss.RawSubject}
+		signKey = Keys()[iss.Key]
+	}
+	der, err := x509.CreateCertificate(rand.Reader, tpl, parent, &k.PublicKey, signKey)
 	if err != nil {
 		return nil, err
 	}
 	return x509.ParseCertificate(der)
 }
 
-// Ident draws a self-signed certificate on a pool key with a generated name and serial.
+func makeCert(key int, subject pkix.Name, serial *big.Int) (*x509.Certificate, error) {
+	return makeCertFull(key, subject, nil, serial, nil)
+}
+
+// Ident draws a certificate on a pool key with a generated name and serial:
+// self-signed, or (one time in three) issued by a CA with another generated
+// name on another pool key, so that issuer and subject differ.
 func Ident(cheap bool) *rapid.Generator[Identity] {
 	return rapid.Custom(func(t *rapid.T) Identity {
 		key := KeyIndex(cheap).Draw(t, "key")
-		c, err := makeCert(key, Name().Draw(t, "name"), Serial().Draw(t, "serial"))
+		var iss *issuer
+		if rapid.IntRange(0, 2).Draw(t, "ca_issued") == 0 {
+			iss = &issuer{Key: KeyIndex(true).Draw(t, "cakey"), Name: Name().Draw(t, "caname")}
+		}
+		c, err := makeCertFull(key, Name().Draw(t, "name"), nil, Serial().Draw(t, "serial"), iss)
 		if err != nil {
 			t.Fatalf("certificate generation failed: %v", err)
 		}
@@ -188,7 +211,8 @@ func Twin(id Identity, otherKey int) (Identity, error) {
 		return tw, nil
 	}
 	twinMu.Unlock()
-	c, err := makeCert(otherKey, id.Cert.Subject, id.Cert.SerialNumber)
+	// same issuer name (byte for byte) and serial, another subject key
+	c, err := makeCertFull(otherKey, id.Cert.Subject, id.Cert.RawSubject, id.Cert.SerialNumber, &issuer{Key: otherKey, Name: id.Cert.Issuer, RawSubject: id.Cert.RawIssuer})
 	if err != nil {
 		return Identity{}, err
 	}
@@ -216,7 +240,12 @@ var (
 func FixedIdents() []Identity {
 	fixedOnce.Do(func() {
 		for i := range Keys() {
-			c, err := makeCert(i, pkix.Name{CommonName: fmt.Sprintf("verif fixed identity %d", i), Organization: []string{"verif"}}, big.NewInt(int64(0x1000+i)))
+			// odd identities are issued by a CA (issuer name differs from the subject name), even ones are self-signed
+			var iss *issuer
+			if i%2 == 1 {
+				iss = &issuer{Key: (i + 3) % len(Keys()), Name: pkix.Name{CommonName: "verif fixed CA", Organization: []string{"verif", "issuing"}, Country: []string{"NO"}}}
+			}
+			c, err := makeCertFull(i, pkix.Name{CommonName: fmt.Sprintf("verif fixed identity %d", i), Organization: []string{"verif"}}, nil, big.NewInt(int64(0x1000+i)), iss)
 			if err != nil {
 				panic(err)
 			}
@@ -244,7 +273,7 @@ func Sibling(id Identity) (Identity, error) {
 	if k < 0 {
 		return Identity{}, fmt.Errorf("no private key")
 	}
-	c, err := makeCert(k, id.Cert.Subject, new(big.Int).Add(id.Cert.SerialNumber, big.NewInt(1)))
+	c, err := makeCertFull(k, id.Cert.Subject, id.Cert.RawSubject, new(big.Int).Add(id.Cert.SerialNumber, big.NewInt(1)), &issuer{Key: k, Name: id.Cert.Issuer, RawSubject: id.Cert.RawIssuer})
 	if err != nil {
 		return Identity{}, err
 	}
